@@ -288,6 +288,23 @@ def check_hashdata(rep, prog, rid, only_types=None):
     return n
 
 
+def _through_helper(prog, found):
+    """`X.m()` where m is a no-argument method: the value(s) m returns for receiver X (every definition of m in the package,
+    so that the receiver's class need not be known); the text itself when m is not a method of the package."""
+    m = re.match(r'^(.+)\.([A-Za-z_]\w*)\(\)$', found)
+    if not m or not _balanced(m.group(1)) or m.group(2) in ('__bytearray__', '__bytes__', 'pubkey'):
+        return [found]
+    defs = [f for f in prog.all_functions() if f.name == m.group(2) and f.cls is not None and len(f.params) == 1]
+    if not defs:
+        return [found]
+    outs = []
+    for f in defs:
+        for s in Interp(prog, Scenario(inline=lambda g: False)).run(f, self_val=Sym(m.group(1), nonnull=True)):
+            if s.raised is None:
+                outs.append(render(s.ret) if s.ret is not None else '<no return>')
+    return outs or [found]
+
+
 def check_subject_hashdata(rep, prog, rid):
     """PGPKey.hashdata = public key packet body; PGPUID.hashdata = user id body / user attribute subpackets."""
     fk = prog.method('pgpy.pgp', 'PGPKey', 'hashdata')
@@ -298,6 +315,8 @@ def check_subject_hashdata(rep, prog, rid):
         for s in outs:
             exp = sl('%s.__bytearray__()' % X, ('len(%s.header)' % X, ''))
             found = render(s.ret) if s.ret is not None else '<no return>'
+            if found != exp and all(x == exp for x in _through_helper(prog, found)):
+                found = exp          # the body is taken through a helper method of the packet that returns exactly that slice
             rep.check(found == exp, rid, 'PGPKey.hashdata', 'is_public=%s: return %s' % (public, found),
                       'key hashdata must be the body of the PUBLIC key packet (packet minus header)',
                       where=fk.where, expected=exp, found=found, scenario='is_public=%s' % public)
@@ -309,6 +328,8 @@ def check_subject_hashdata(rep, prog, rid):
         exp = sl('self._uid.__bytearray__()', ('len(self._uid.header)', '')) if uid else 'self._uid.subpackets.__bytearray__()'
         for s in outs:
             found = render(s.ret) if s.ret is not None else '<no return>'
+            if found != exp and all(x == exp for x in _through_helper(prog, found)):
+                found = exp
             rep.check(found == exp, rid, 'PGPUID.hashdata', 'is_uid=%s: return %s' % (uid, found),
                       'user id hashdata must be the user-id packet body / the user-attribute subpacket octets',
                       where=fu.where, expected=exp, found=found, scenario='is_uid=%s' % uid)
